@@ -243,11 +243,17 @@ def run(tier: str, seed: int) -> Result:
   res.streams.append(stream)
   counter = itertools.count(100)
   fresh = lambda: next(counter)
+  # values are distinct markers; in every second case some of them are None / False / 0 (a configured
+  # value that is falsy or None is still a configured value)
+  def fresh_falsy():
+    next(counter)
+    return rng.choice([None, None, False, 0]) if rng.random() < 0.45 else next(counter)
   n = 600 if tier == "quick" else 20000
   for i in range(n):
     params = common.gen_signature(rng)
     flavour = rng.choice(FLAVOURS)
-    one_case(rng, res, intern, stream, params, flavour, fresh, f"random#{i}", rng.randint(0, 8))
+    one_case(rng, res, intern, stream, params, flavour, fresh_falsy if i % 2 == 1 else fresh,
+             f"random#{i}", rng.randint(0, 8))
   # exhaustive small scope: all signature shapes x all subsets set by direct storage edits
   shapes = common.all_signatures(3 if tier == "quick" else 4)
   if tier == "quick":
